@@ -156,6 +156,32 @@ def bounded(ctx):
             if got[0] not in ("product", "InvalidSequence", "DuplicateModules", "MissingModule"):
                 viol.append(dict(name="assembly_%s" % got[0], what="assembly of vector %r with modules %r ended with %r" % (
                     vt[:30], [c[:30] for c in combo], got), case=dict(vector=vt, modules=list(combo))))
+    # complete assemblies with one more, unused module: an unrelated one, the reverse complement of a used one, a used
+    # one's twin with another end; and the shared scenarios (any outcome but an internal error)
+    extra = [ba.build_module(BsaI, "TTGA", "ACGTAC", "TTGA", rng), gen.rc(good[0]), gen.rc(good[1]),
+             ba.build_module(BsaI, "TTGA", "CCCAAA", gen.rc("AACC"), rng)]
+    vchain1, _ = ba.build_vector(BsaI, "GGAT", "AACC", rng)
+    for vt, used in ((vgood, good), (vchain1, good[:1])):
+        for x_ in extra:
+            if x_ is None:
+                continue
+            evals += 1
+            vec = Vec(CircularRecord(Seq(vt), id="v"))
+            ms = [Mod(CircularRecord(Seq(t), id="m%d" % i)) for i, t in enumerate(list(used) + [x_])]
+            got, prod, w = ba.run_assembly(vec, ms)
+            distinct.add(("unused", vt[:6], x_[:8]))
+            if got[0] not in ("product", "InvalidSequence", "DuplicateModules", "MissingModule"):
+                viol.append(dict(name="assembly_unused_%s" % got[0], what="a complete chain plus the unused module %r ended with %r" % (x_[:40], got),
+                                 case=dict(vector=vt, modules=list(used) + [x_])))
+    from bounded import scenarios as sn
+    for t_, spec in enumerate(sn.scenarios(ns, ctx.seed + 5, 40 if ctx.tier == "quick" else 250, ctx.tier)):
+        sc = sn.build(ns, spec)
+        evals += 1
+        got, prod, w = sc.run()
+        distinct.add(("shared", t_))
+        if got[0] not in ("product", "InvalidSequence", "DuplicateModules", "MissingModule"):
+            viol.append(dict(name="assembly_scenario_%s" % got[0], what="shared scenario %s ended with %r" % (
+                {k_: v_ for k_, v_ in sc.describe().items() if k_ not in ("records", "supplied")}, got), case=sc.describe()))
     samples.append(dict(cls=classes[0][0], record=pool[0], valid=False))
     uniq = {}
     for v_ in viol:
